@@ -534,6 +534,25 @@ where
 
 	let orig_proof_info = tx_vec[0].clone().payment_proof;
 
+	// What was asked for when the transaction was initiated is kept in the context. The
+	// proof info in the tx log entry is not enough: for a late-locked send, or when the
+	// outputs were locked with the reply, it was written from the reply slate itself.
+	if context.payment_proof_derivation_index.is_some() && slate.payment_proof.is_none() {
+		return Err(Error::PaymentProof(
+			"Expected Payment Proof for this Transaction is not present".to_owned(),
+		));
+	}
+	if let (Some(requested), Some(p)) = (
+		context.payment_proof_recipient_address.as_ref(),
+		slate.payment_proof.as_ref(),
+	) {
+		if p.receiver_address != *requested {
+			return Err(Error::PaymentProof(
+				"Recipient address on slate does not match requested recipient address".to_owned(),
+			));
+		}
+	}
+
 	if orig_proof_info.is_some() && slate.payment_proof.is_none() {
 		return Err(Error::PaymentProof(
 			"Expected Payment Proof for this Transaction is not present".to_owned(),
